@@ -62,11 +62,7 @@ def m_deque(it=()):
     return MDeque(it)
 
 
-def m_counter(it=()):
-    d = {}
-    for x in it:
-        d[x] = d.get(x, 0) + 1
-    return d
+m_counter = __import__("collections").Counter  # pure data: CPython's own class (a missing key counts 0, subtract / most_common / elements / total)
 
 
 def m_defaultdict(factory):
@@ -86,25 +82,41 @@ def stdlib_table():
     global _STDLIB
     if _STDLIB is None:
         import collections
+        import collections.abc
         import operator
 
         _STDLIB = {
             "itertools": {n: getattr(itertools, n) for n in ("count", "repeat", "cycle", "starmap", "accumulate", "groupby", "islice", "product", "permutations", "combinations",
                                                              "combinations_with_replacement", "zip_longest", "takewhile", "dropwhile", "tee", "compress", "filterfalse")},
             "functools": {"reduce": functools.reduce, "partial": functools.partial, "lru_cache": m_lru_cache, "cache": m_lru_cache, "wraps": (lambda f: (lambda g: g)), "cached_property": (lambda f: f),
-                          "total_ordering": (lambda c: c), "singledispatch": None},
+                          "total_ordering": (lambda c: c), "singledispatch": m_singledispatch},
+            "contextlib": {"contextmanager": m_contextmanager, "suppress": MSuppress, "nullcontext": (lambda x=None: MContextManager(iter([x]))), "ExitStack": MExitStack, "closing": (lambda x: MContextManager(iter([x])))},
+            "textwrap": {"dedent": __import__("textwrap").dedent, "indent": __import__("textwrap").indent},
+            "types": {"MappingProxyType": (lambda d: dict(d)), "SimpleNamespace": NS},
+            "enum": {"auto": (lambda: __import__("cgstatic.userclass", fromlist=["x"]).AUTO), "Enum": __import__("cgstatic.userclass", fromlist=["x"]).EnumBase("Enum"), "StrEnum": __import__("cgstatic.userclass", fromlist=["x"]).EnumBase("StrEnum"), "IntEnum": __import__("cgstatic.userclass", fromlist=["x"]).EnumBase("IntEnum"), "unique": (lambda c: c)},
             "collections": {"defaultdict": m_defaultdict, "deque": m_deque, "Counter": m_counter, "OrderedDict": dict, "namedtuple": __import__("cgstatic.userclass", fromlist=["x"]).namedtuple_factory,
                             "ChainMap": (lambda *maps: {k: v for m_ in reversed(maps) for k, v in m_.items()})},
             "typing": {n: object for n in ("Any", "Optional", "Iterable", "Iterator", "Sequence", "Mapping", "Dict", "List", "Set", "Tuple", "Callable", "Union", "FrozenSet", "Generator", "Hashable", "ClassVar", "Final")},
-            "dataclasses": {"field": __import__("cgstatic.userclass", fromlist=["x"]).dataclass_field, "dataclass": (lambda *a, **k: (a[0] if a else (lambda c: c)))},
+            "dataclasses": {"field": __import__("cgstatic.userclass", fromlist=["x"]).dataclass_field, "dataclass": (lambda *a, **k: (a[0] if a else (lambda c: c))), "replace": m_dataclass_replace,
+                            "astuple": (lambda o: o._uc_tuple()), "asdict": (lambda o: {f[0]: getattr(o, f[0]) for f in o._uc_class._uc_fields})},
             "operator": {n: getattr(operator, n) for n in ("itemgetter", "attrgetter", "methodcaller", "or_", "and_", "xor", "not_", "add", "sub", "mul", "eq", "ne", "lt", "le", "gt", "ge", "contains", "getitem", "truth", "is_", "is_not", "neg")},
             "queue": {"Queue": MQueue},
             "io": {"StringIO": MStringIO},
             "weakref": {"WeakKeyDictionary": dict, "WeakValueDictionary": dict, "WeakSet": set},
             "copy": {"copy": __import__("copy").copy, "deepcopy": __import__("copy").deepcopy},
-            "math": {n: getattr(__import__("math"), n) for n in ("ceil", "floor", "log2", "log", "sqrt", "inf")},
+            "math": {n: getattr(__import__("math"), n) for n in ("ceil", "floor", "log2", "log", "log10", "sqrt", "isqrt", "inf", "prod", "gcd", "lcm", "comb", "perm", "factorial", "fsum", "isclose",
+                                                                 "pow", "exp", "fabs", "trunc", "copysign", "isfinite", "isinf", "isnan", "nan", "pi", "e")},
+            "string": {n: getattr(__import__("string"), n) for n in ("Template", "ascii_letters", "ascii_lowercase", "ascii_uppercase", "digits", "hexdigits", "punctuation", "whitespace", "capwords")},
+            "collections.abc": {n: getattr(collections.abc, n) for n in ("Callable", "Hashable", "Iterator", "Iterable", "Mapping", "MutableMapping", "Sequence", "MutableSequence", "Set", "MutableSet",
+                                                                            "Collection", "Container", "Sized", "Generator", "Reversible", "KeysView", "ValuesView", "ItemsView")},
         }
+        for n in ("TypeAlias", "TypeVar", "Generic", "Protocol", "Literal", "Self", "NamedTuple", "TypedDict", "Type", "NoReturn", "Never", "Annotated", "Collection", "MutableMapping", "AbstractSet", "Deque", "DefaultDict"):
+            _STDLIB["typing"].setdefault(n, object)
+        _STDLIB["typing"]["cast"] = lambda t, v: v
+        _STDLIB["typing"]["TYPE_CHECKING"] = False
         _STDLIB["itertools"]["chain"] = MChain()
+        _STDLIB["itertools"]["pairwise"] = itertools.pairwise
+        _STDLIB["itertools"]["batched"] = _batched
     return _STDLIB
 
 
@@ -128,15 +140,19 @@ def bind_module_constants(tree, env):
     from .minieval import MiniEval
 
     for st in tree.body:
-        if isinstance(st, ast.Assign) and len(st.targets) == 1 and isinstance(st.targets[0], ast.Name):
-            name = st.targets[0].id
-            if name in env:
-                continue
-            me = MiniEval(env)
-            try:
-                env[name] = me.ev(st.value)
-            except (Unsupported, ModelRaise, Exception):
-                continue
+        if isinstance(st, ast.AnnAssign) and st.value is not None and isinstance(st.target, ast.Name):
+            name, value = st.target.id, st.value
+        elif isinstance(st, ast.Assign) and len(st.targets) == 1 and isinstance(st.targets[0], ast.Name):
+            name, value = st.targets[0].id, st.value
+        else:
+            continue
+        if name in env:
+            continue
+        me = MiniEval(env)
+        try:
+            env[name] = me.ev(value)
+        except (Unsupported, ModelRaise, Exception):
+            continue
 
 
 def m_lru_cache(*dargs, maxsize=128, typed=False):
@@ -163,6 +179,195 @@ def m_lru_cache(*dargs, maxsize=128, typed=False):
     if len(dargs) == 1 and callable(dargs[0]):
         return decorate(dargs[0])
     return decorate
+
+
+class MContextManager(Model):
+    """What @contextlib.contextmanager makes of a generator function: enter = run to the yield, exit = run the rest."""
+
+    def __init__(self, gen):
+        self._gen = gen
+
+    def __enter__(self):
+        try:
+            return next(self._gen)
+        except StopIteration:
+            raise ModelRaise("RuntimeError", "generator didn't yield")
+
+    def __exit__(self, kind, exc, tb):
+        if exc is None:
+            try:
+                next(self._gen)
+            except StopIteration:
+                return False
+            raise ModelRaise("RuntimeError", "generator didn't stop")
+        # an exception in the with-body is raised inside the generator at its `yield`: its handlers and `finally` run; it may
+        # swallow the exception (the generator ends normally), re-raise it, or raise another one
+        throw = getattr(self._gen, "throw", None)
+        if throw is None:
+            close = getattr(self._gen, "close", None)
+            if close:
+                close()
+            return False
+        try:
+            throw(exc)
+        except StopIteration:
+            return True
+        except ModelRaise as e:
+            if e is exc:
+                return False
+            raise
+        raise ModelRaise("RuntimeError", "generator didn't stop after throw()")
+
+
+def m_contextmanager(f):
+    def make(*a, **k):
+        return MContextManager(f(*a, **k))
+    return make
+
+
+class MSuppress(Model):
+    def __init__(self, *excs):
+        self._names = [getattr(e, "__name__", str(e)) for e in excs]
+
+    def __enter__(self):
+        return None
+
+    def __exit__(self, kind, exc, tb):
+        from .minieval import exception_matches
+
+        return exc is not None and any(exception_matches(kind, n) for n in self._names)
+
+
+class MExitStack(Model):
+    """contextlib.ExitStack: exit callbacks run last-in first-out when the `with` block ends; an exit-style callback (push) sees
+    the exception and may suppress it."""
+
+    def __init__(self):
+        self._cbs = []
+
+    def __enter__(self):
+        return self
+
+    def push(self, exit_cb):
+        if hasattr(exit_cb, "__exit__"):
+            self._cbs.append(("exit", exit_cb.__exit__))
+        else:
+            self._cbs.append(("exit", exit_cb))
+        return exit_cb
+
+    def callback(self, fn, *a, **k):
+        self._cbs.append(("plain", lambda: fn(*a, **k)))
+        return fn
+
+    def enter_context(self, cm):
+        v = cm.__enter__() if hasattr(cm, "__enter__") else cm
+        if hasattr(cm, "__exit__"):
+            self._cbs.append(("exit", cm.__exit__))
+        return v
+
+    def pop_all(self):
+        other = MExitStack()
+        other._cbs, self._cbs = self._cbs, []
+        return other
+
+    def close(self):
+        self.__exit__(None, None, None)
+
+    def __exit__(self, kind, exc, tb):
+        suppressed_any = False
+        pending = (kind, exc)
+        while self._cbs:
+            style, cb = self._cbs.pop()
+            try:
+                if style == "plain":
+                    cb()
+                elif cb(pending[0], pending[1], None):
+                    suppressed_any = pending[1] is not None or suppressed_any
+                    pending = (None, None)
+            except ModelRaise as e:
+                from .minieval import ExcType
+
+                pending = (ExcType(e.raised_as), e)
+                suppressed_any = False
+        if pending[1] is not None and pending[1] is not exc:
+            raise pending[1]
+        return suppressed_any and pending[1] is None
+
+
+def m_singledispatch(f):
+    """functools.singledispatch: dispatch on the class of the first argument; `@f.register(str)` / `@f.register` with an
+    annotated first parameter."""
+    registry = []
+
+    def dispatch(*a, **k):
+        from .userclass import UserClass, is_instance_of
+
+        x = a[0] if a else None
+        for ty, impl in registry:
+            if isinstance(ty, UserClass):
+                if is_instance_of(x, ty):
+                    return impl(*a, **k)
+            elif isinstance(ty, type) and isinstance(x, ty) and not (ty is int and isinstance(x, bool)):
+                return impl(*a, **k)
+        return f(*a, **k)
+
+    def register(ty, impl=None):
+        if impl is not None:
+            registry.insert(0, (ty, impl))
+            return impl
+        if isinstance(ty, type) or type(ty).__name__ == "UserClass":
+            def deco(g):
+                registry.insert(0, (ty, g))
+                return g
+            return deco
+        fdef = getattr(ty, "_cg_fdef", None)
+        if fdef is not None:
+            # `@f.register` on a function whose first parameter is annotated with the class (or a union of classes)
+            params = fdef.args.posonlyargs + fdef.args.args
+            ann = params[0].annotation if params else None
+            if ann is None:
+                raise ModelRaise("TypeError", "singledispatch.register: the first parameter has no annotation")
+            parts, stack = [], [ann]
+            while stack:
+                x = stack.pop()
+                if isinstance(x, ast.BinOp) and isinstance(x.op, ast.BitOr):
+                    stack += [x.right, x.left]
+                elif isinstance(x, ast.Subscript) and ast.unparse(x.value).split(".")[-1] in ("Union", "Optional"):
+                    stack += list(x.slice.elts) if isinstance(x.slice, ast.Tuple) else [x.slice]
+                else:
+                    parts.append(x)
+            for x in parts:
+                cls = ty._cg_interp.me.ev(x) if not (isinstance(x, ast.Constant) and x.value is None) else type(None)
+                if not (isinstance(cls, type) or type(cls).__name__ == "UserClass"):
+                    raise Unsupported(f"singledispatch.register by annotation {ast.unparse(x)}")
+                registry.insert(0, (cls, ty))
+            return ty
+        raise Unsupported("singledispatch.register on this object")
+
+    dispatch.register = register
+    dispatch.dispatch = lambda ty: next((impl for t_, impl in registry if t_ is ty), f)
+    return dispatch
+
+
+def m_dataclass_replace(obj, **changes):
+    from .userclass import UserInstance
+
+    if not isinstance(obj, UserInstance):
+        raise ModelRaise("TypeError", "replace() should be called on dataclass instances")
+    cls = obj._uc_class
+    d = object.__getattribute__(obj, "__dict__")
+    vals = {f[0]: d[f[0]] for f in cls._uc_fields}
+    vals.update(changes)
+    return cls(**vals)
+
+
+def _batched(it, n):
+    it = iter(it)
+    while True:
+        chunk = tuple(itertools.islice(it, n))
+        if not chunk:
+            return
+        yield chunk
 
 
 def apply_decorators(fdef, clo, ev):
@@ -251,13 +456,34 @@ class MFunctools(Model):
 
 def bind_with_decorators(fdef, clo, obj):
     decs = {ast.unparse(d).split(".")[-1].split("(")[0] for d in fdef.decorator_list}
-    unknown = decs - {"staticmethod", "classmethod", "property", "lru_cache", "cache", "cached_property", "wraps"}
+    unknown = decs - {"staticmethod", "classmethod", "property", "lru_cache", "cache", "cached_property", "wraps", "contextmanager"}
     if unknown:
         raise Unsupported(f"decorator(s) {sorted(unknown)} on {fdef.name}")
+    if "contextmanager" in decs:
+        if "staticmethod" in decs:
+            return lambda *a, **k: MContextManager(clo(*a, **k))
+        return lambda *a, **k: MContextManager(clo(obj, *a, **k))
     if "staticmethod" in decs:
         return lambda *a, **k: clo(*a, **k)
     if "classmethod" in decs:
         return lambda *a, **k: clo(type(obj), *a, **k)
+    if decs & {"lru_cache", "cache"}:
+        # functools.lru_cache on a method: results are remembered per (object, arguments) for as long as the object lives
+        def f(*a, **k):
+            try:
+                store = obj.__dict__.setdefault("_cg_method_cache", {})
+            except AttributeError:
+                return clo(obj, *a, **k)
+            try:
+                key = (fdef.name, a, tuple(sorted(k.items())))
+                hash(key)
+            except TypeError:
+                raise ModelRaise("TypeError", f"unhashable argument to the cached method {fdef.name}")
+            if key not in store:
+                store[key] = clo(obj, *a, **k)
+            return store[key]
+
+        return f
     f = lambda *a, **k: clo(obj, *a, **k)
     if "property" in decs or "cached_property" in decs:
         f._is_property = True
@@ -493,10 +719,12 @@ class Package:
         bind_stdlib_imports(tree, env)
         # functions first (they resolve names at call time), then constants in source order (lookup tables may
         # name functions defined anywhere in the module)
+        own = {}
         for st in tree.body:
             if isinstance(st, ast.FunctionDef):
                 key = (rel, st.name)
                 env[st.name] = self.overrides[key] if key in self.overrides else bi.make_closure(st)
+                own[id(st)] = env[st.name]  # several functions may share a name (`def _` under `@f.register`)
         # decorators (functools.lru_cache ...) once every module-level name they may mention is bound
         self._pending_decorators = [(st, rel) for st in tree.body if isinstance(st, ast.FunctionDef) and st.decorator_list and (rel, st.name) not in self.overrides]
         # classes the module defines for its own use (helper objects, NamedTuples, dataclasses); Circuit / BlackBox are
@@ -511,7 +739,7 @@ class Package:
                     pass
         bind_module_constants(tree, env)
         for st, rel_ in self._pending_decorators:
-            env[st.name] = apply_decorators(st, env[st.name], bi.me.ev)
+            env[st.name] = apply_decorators(st, own[id(st)], bi.me.ev)
         # a class may use module constants as defaults / class attributes and vice versa: second pass for late ones
         for st in tree.body:
             if isinstance(st, ast.ClassDef) and st.name not in env:
@@ -529,7 +757,8 @@ class Package:
         env.setdefault("re", MRe())
         reexports = {"parse_verilog_netlist": "parsing/verilog.py", "fast_parse_verilog_netlist": "parsing/fast_verilog.py"}
         modfile = {"circuitgraph.io": "io.py", "circuitgraph.utils": "utils.py", "circuitgraph.tx": "tx.py", "circuitgraph.sat": "sat.py", "circuitgraph.props": "props.py",
-                   "circuitgraph.logic": "logic.py", "circuitgraph.parsing.verilog": "parsing/verilog.py", "circuitgraph.parsing.fast_verilog": "parsing/fast_verilog.py"}
+                   "circuitgraph.logic": "logic.py", "circuitgraph.parsing.verilog": "parsing/verilog.py", "circuitgraph.parsing.fast_verilog": "parsing/fast_verilog.py",
+                   "circuitgraph.circuit": "circuit.py"}
         for st in self.repo.tree[rel].body:
             if not isinstance(st, ast.ImportFrom) or not st.module or not st.module.startswith("circuitgraph"):
                 continue
@@ -546,6 +775,11 @@ class Package:
                     env[nm] = self._full_parser
                 elif (target, al.name) in self.repo.funcs or (target, al.name) in self.overrides:
                     env[nm] = (lambda t, n: (lambda *a, **k: self.func(t, n)(*a, **k)))(target, al.name)
+                elif target != rel and target in self.repo.tree:
+                    # a helper class / enumeration / exception class / constant another module of the package defines
+                    tenv = self.env(target)
+                    if al.name in tenv:
+                        env[nm] = tenv[al.name]
 
     def _full_parser(self, netlist, blackboxes, warnings=False, error_on_warning=False):
         from .verilogmodel import ParseError, full_parse
